@@ -53,6 +53,8 @@ type HStep struct {
 	curVerts  []s2.Point
 	curLoops  [][]s2.Point
 	haveLoops bool
+	AltEQ     EQOpts // the options the reused query was created with, when they were changed since
+	HasAlt    bool
 	subjCells []uint64
 	cellsOK   bool
 	ans       Ans
@@ -101,7 +103,8 @@ type symQ struct {
 	cpqObj []int
 	cpqMod []s2.VertexModel
 	cpqOK  []bool
-	tgtOp  []Op // template: TK, P, Q, Cell, Obj2, EQ.Furthest
+	eqOpt0 []EQOpts // options at creation
+	tgtOp  []Op     // template: TK, P, Q, Cell, Obj2, EQ.Furthest
 	tgtOK  []bool
 }
 
@@ -225,6 +228,7 @@ func drawHistory(g *gen.G, descs []*ObjDesc, maxSteps int) []HStep {
 			}
 			sq.eqObj = append(sq.eqObj, obj)
 			sq.eqOpt = append(sq.eqOpt, h.EQ)
+			sq.eqOpt0 = append(sq.eqOpt0, h.EQ)
 			sq.eqOK = append(sq.eqOK, true)
 			focusFam, focusID, focusObj, focusLeft = HNewEQ, len(sq.eqObj)-1, obj, 2+int(t.Uint(5))
 		case HNewTarget:
@@ -343,6 +347,9 @@ func drawHistory(g *gen.G, descs []*ObjDesc, maxSteps int) []HStep {
 				if q.Reuse < 0 && (q.Kind == QBuild || q.Kind == QWalk || q.Kind == QLocate) {
 					sq.resume(q.Obj)
 				}
+			}
+			if q.Reuse >= 0 && (q.Kind == QFindEdges || q.Kind == QDistance || q.Kind == QIsDistLess || q.Kind == QIsConsDist) && sq.eqOpt0[q.Reuse] != sq.eqOpt[q.Reuse] {
+				h.AltEQ, h.HasAlt = sq.eqOpt0[q.Reuse], true
 			}
 			h.Obj = q.Obj
 			h.LiveA, h.MutsA = cloneInts(syms[q.Obj].live), cloneInts(syms[q.Obj].muts)
@@ -676,6 +683,7 @@ func runC13(rc *runCtx) *RunResult {
 	}
 
 	// ---- reference: the same final state by the shortest sequence on fresh objects ---------
+	optSem := map[int]int{} // per long-lived EdgeQuery: 0 unknown, 1 follows later option changes, 2 keeps creation options
 	for i := range steps {
 		h := &steps[i]
 		if h.Kind != HQuery || !h.done {
@@ -689,12 +697,9 @@ func runC13(rc *runCtx) *RunResult {
 		if od.Kind != OIndex && allInverts(h.MutsA) && len(h.MutsA) >= 2 {
 			variants = 2
 		}
-		for v := 0; v < variants+1; v++ {
-			var refAns Ans
-			var refCells []uint64
-			refCellsOK := false
-			label := ""
-			rp := func() (p string) {
+		// computeRef answers q on fresh objects (variant v); status "" = ok, "skip", or a panic text
+		computeRef := func(q Op, v int) (refAns Ans, refCells []uint64, refCellsOK bool, label string, status string) {
+			status = func() (p string) {
 				defer func() {
 					if x := recover(); x != nil {
 						p = fmt.Sprint(x)
@@ -742,25 +747,17 @@ func runC13(rc *runCtx) *RunResult {
 				}
 				return ""
 			}()
-			if rp == "skip" {
-				continue
-			}
-			if rp != "" {
-				res.Viol = &Violation{Kind: "panic", Site: "reference:" + qNames[q.Kind] + "/" + objKindNames[od.Kind],
-					Detail: fmt.Sprintf("step%d %s: the shortest sequence on fresh objects (%s) itself panicked: %s", i, h.Q.String(), label, rp)}
-				return res
-			}
-			rc.inc("reference_checks", 1)
-			if (q.Kind == QRelContains || q.Kind == QRelIntersects) && len(refAns) == 1 && refAns[0] == 1 && q.Obj != q.Obj2 {
-				rc.inc("probe_relation_true_between_distinct_objects", 1)
-			}
-			subj, ref := h.ans, refAns
+			return
+		}
+		// compare applies the comparison rules; comparable=false means "nothing to compare here"
+		compare := func(q Op, v int, refAns Ans, refCells []uint64, refCellsOK bool) (comparable, equal bool, subj, ref Ans) {
+			subj, ref = h.ans, refAns
 			if v != 0 {
 				// a reference that did not go through the same mutation sequence may store the
 				// polygon's loops in another order, and may have a tighter bound (the bound after
 				// Invert is allowed to be loose): compare what is a function of the region only
 				if q.Kind == QBounds {
-					continue
+					return false, true, subj, ref
 				}
 				subj, ref = orderIndependent(subj), orderIndependent(ref)
 			}
@@ -771,13 +768,70 @@ func runC13(rc *runCtx) *RunResult {
 					if q.Kind == QFindEdges && q.EQ.MaxError == 0 {
 						subj, ref = distancesOnly(subj), distancesOnly(ref)
 					} else {
-						continue
+						return false, true, subj, ref
 					}
 				} else {
 					rc.inc("structure_sensitive_compared", 1)
 				}
 			}
-			if !eqAns(subj, ref) {
+			return true, eqAns(subj, ref), subj, ref
+		}
+		for v := 0; v < variants+1; v++ {
+			refAns, refCells, refCellsOK, label, status := computeRef(q, v)
+			if status == "skip" {
+				continue
+			}
+			if status != "" {
+				res.Viol = &Violation{Kind: "panic", Site: "reference:" + qNames[q.Kind] + "/" + objKindNames[od.Kind],
+					Detail: fmt.Sprintf("step%d %s: the shortest sequence on fresh objects (%s) itself panicked: %s", i, h.Q.String(), label, status)}
+				return res
+			}
+			rc.inc("reference_checks", 1)
+			if (q.Kind == QRelContains || q.Kind == QRelIntersects) && len(refAns) == 1 && refAns[0] == 1 && q.Obj != q.Obj2 {
+				rc.inc("probe_relation_true_between_distinct_objects", 1)
+			}
+			comparable, equal, subj, ref := compare(q, v, refAns, refCells, refCellsOK)
+			if h.HasAlt && v == 0 {
+				// The caller changed the options object after the query was created. Whether a live
+				// query follows such changes (it shares the object) or keeps the options it was
+				// created with (it copied them) is not for this check to prescribe; but one query
+				// object must behave one way in all of its methods.
+				qa := q
+				qa.EQ = h.AltEQ
+				aAns, aCells, aOK, _, aStatus := computeRef(qa, 0)
+				if aStatus != "" {
+					continue
+				}
+				aComparable, aEqual, _, aref := compare(qa, 0, aAns, aCells, aOK)
+				if !comparable || !aComparable {
+					continue
+				}
+				rc.inc("probe_query_after_option_change", 1)
+				sem := optSem[h.Q.Reuse]
+				switch {
+				case equal && aEqual:
+				case equal:
+					if sem == 2 {
+						res.Viol = &Violation{Kind: "history-dependent-answer", Site: qNames[q.Kind] + "/options-changed",
+							Detail: fmt.Sprintf("step%d %s: this call follows the options the caller set later, but an earlier call on the same query object used the options it was created with (answer %v)", i, h.Q.String(), trunc(subj))}
+						return res
+					}
+					optSem[h.Q.Reuse] = 1
+				case aEqual:
+					if sem == 1 {
+						res.Viol = &Violation{Kind: "history-dependent-answer", Site: qNames[q.Kind] + "/options-changed",
+							Detail: fmt.Sprintf("step%d %s: this call ignores the options the caller set later (answer %v = fresh query with the creation options), but an earlier call on the same query object followed them (fresh query with the new options gives %v)", i, h.Q.String(), trunc(subj), trunc(ref))}
+						return res
+					}
+					optSem[h.Q.Reuse] = 2
+				default:
+					res.Viol = &Violation{Kind: "history-dependent-answer", Site: qNames[q.Kind] + "/" + objKindNames[od.Kind],
+						Detail: fmt.Sprintf("step%d %s: after the history the answer is %v; a fresh query with the current options gives %v, with the options at creation %v", i, h.Q.String(), trunc(subj), trunc(ref), trunc(aref))}
+					return res
+				}
+				continue
+			}
+			if comparable && !equal {
 				res.Viol = &Violation{Kind: "history-dependent-answer", Site: qNames[q.Kind] + "/" + objKindNames[od.Kind],
 					Detail: fmt.Sprintf("step%d %s: after the history the answer is %v; %s give %v", i, h.Q.String(), trunc(subj), label, trunc(ref))}
 				return res
